@@ -29,13 +29,13 @@ package atree
 //@ func (a *ArrayMetaDataSlab) ChildStorables() (r)  serves C09 C20
 //@   ensures len(r) == len(a.childrenHeaders) && (forall k :: 0 <= k && k < len(r) ==> r[k] == iface(SlabIDStorable(a.childrenHeaders[k].slabID)))
 //@   modifies alloc
-//@   loop 1: invariant len(parentOf) == refsEnumerated - old(refsEnumerated) && 0 <= i && i <= len(a.childrenHeaders) && len(childIDs) == len(a.childrenHeaders) &&
+//@   loop 1: invariant 0 <= i && i <= len(a.childrenHeaders) && len(childIDs) == len(a.childrenHeaders) &&
 //@        (forall k :: 0 <= k && k < i ==> childIDs[k] == iface(SlabIDStorable(a.childrenHeaders[k].slabID)))
 
 //@ func (m *MapMetaDataSlab) ChildStorables() (r)  serves C09 C20
 //@   ensures len(r) == len(m.childrenHeaders) && (forall k :: 0 <= k && k < len(r) ==> r[k] == iface(SlabIDStorable(m.childrenHeaders[k].slabID)))
 //@   modifies alloc
-//@   loop 1: invariant len(parentOf) == refsEnumerated - old(refsEnumerated) && 0 <= i && i <= len(m.childrenHeaders) && len(childIDs) == len(m.childrenHeaders) &&
+//@   loop 1: invariant 0 <= i && i <= len(m.childrenHeaders) && len(childIDs) == len(m.childrenHeaders) &&
 //@        (forall k :: 0 <= k && k < i ==> childIDs[k] == iface(SlabIDStorable(m.childrenHeaders[k].slabID)))
 
 //@ # one element contributes: its key and value (single element), the reference to its slab (external group), or the contributions of
@@ -52,8 +52,8 @@ package atree
 //@   requires is(elems, *singleElements) ==> (forall k :: 0 <= k && k < len(as(elems, *singleElements).elems) ==> as(elems, *singleElements).elems[k] != nil)
 //@   ensures len(r) >= len(childStorables) && (forall k :: 0 <= k && k < len(childStorables) ==> r[k] == childStorables[k])
 //@   modifies alloc
-//@   loop 1: invariant len(parentOf) == refsEnumerated - old(refsEnumerated) && 0 <= i && len(childStorables) >= len(old(childStorables)) && (forall k :: 0 <= k && k < len(old(childStorables)) ==> childStorables[k] == old(childStorables)[k])
-//@   loop 2: invariant len(parentOf) == refsEnumerated - old(refsEnumerated) && 0 <= i && len(childStorables) >= len(old(childStorables)) && (forall k :: 0 <= k && k < len(old(childStorables)) ==> childStorables[k] == old(childStorables)[k])
+//@   loop 1: invariant 0 <= i && len(childStorables) >= len(old(childStorables)) && (forall k :: 0 <= k && k < len(old(childStorables)) ==> childStorables[k] == old(childStorables)[k])
+//@   loop 2: invariant 0 <= i && len(childStorables) >= len(old(childStorables)) && (forall k :: 0 <= k && k < len(old(childStorables)) ==> childStorables[k] == old(childStorables)[k])
 
 //@ # ---------------------------------------------------------------- storage_health_check.go: CheckStorageHealth (C20)
 //@ # Exit-state assertions over the checker's own tables (parentOf: reference -> referencing slab; slabs: everything iterated;
